@@ -69,6 +69,16 @@ def deref_arg(a):
     return a
 
 
+def has_site(e):
+    for x in walk(e):
+        if isinstance(x, tuple) and x:
+            if x[0] == 'load' and len(x) > 2 and x[2] is not None:
+                return True
+            if x[0] == 'call' and len(x) > 3 and x[3] is not None:
+                return True
+    return False
+
+
 def bool_facts(e, pol):
     """facts implied by boolean expression e evaluating to `pol`"""
     e0 = e
@@ -191,8 +201,9 @@ class PathFacts:
                     res = [('eqc', x, lab[1])]
                 else:
                     res = [('nec', x, lab[1])]
-            if self.loop_free and res:
+            if self.loop_free and res and has_site(e):
                 # hidden markers with sites kept: the same sited value cannot be tested with two outcomes on one path
+                # (an expression without any sited read, e.g. phi(true, false) of two unrelated flag locals, identifies nothing)
                 if dty == 'bool':
                     pol = None
                     for f in res:
@@ -240,7 +251,7 @@ class PathFacts:
                     if not ('0' in lab[1]) and ('1' in lab[1]):
                         pol = False
                 res = list(bool_facts(e, pol))
-                if self.loop_free and res:
+                if self.loop_free and res and has_site(e):
                     res.append(('~b', e, pol))
                 if self.record_stores:
                     res = res + self.store_markers(b)
